@@ -4,6 +4,14 @@ set -e
 cd "$(dirname "$0")"
 export CARGO_NET_OFFLINE=true
 [ -f harness/Cargo.lock ] || cp /repo/Cargo.lock harness/Cargo.lock
+[ -f harness_tt/Cargo.lock ] || cp /repo/Cargo.lock harness_tt/Cargo.lock
 cd harness
 CARGO_TARGET_DIR=target-rel cargo build --release --offline
 echo "setup: rel variant built"
+RUSTFLAGS="-C overflow-checks=on -C debug-assertions=on" CARGO_TARGET_DIR=target-chk cargo build --release --offline
+echo "setup: chk variant built"
+RUSTFLAGS="-Zsanitizer=address -Cforce-frame-pointers=yes" CARGO_TARGET_DIR=target-asan cargo +nightly build --release --offline --target x86_64-unknown-linux-gnu
+echo "setup: asan variant built"
+cd ../harness_tt
+MIRIFLAGS="-Zmiri-disable-isolation" CARGO_TARGET_DIR=target-miri cargo +nightly miri run --offline -- 1 0 0 >/dev/null
+echo "setup: miri crate built"
